@@ -72,7 +72,7 @@ theorem session_message_wrong_session_rejected (m : Msg) (k k' : Bytes)
 theorem transport_carries_of (mac : Bytes → Bytes → Bytes) (hmac32 : C13.Mac32 mac) :
     TransportCarries mac (decodeSigned mac) Frames.encodeFrame := by
   intro tk sk sends chunks htk hn hf hsize hchunks
-  have hst := C14.stream tk (sends.map fun s => (s.1, encodeSigned mac s.2 sk)) chunks htk
+  have hst := frames_stream tk (sends.map fun s => (s.1, encodeSigned mac s.2 sk)) chunks htk
     (by intro f hf'; obtain ⟨s, hs, rfl⟩ := List.mem_map.mp hf'; exact hn s hs)
     (by intro f hf'; obtain ⟨s, hs, rfl⟩ := List.mem_map.mp hf'; exact hsize s hs)
     (by rw [hchunks, List.flatMap_map])
@@ -107,7 +107,7 @@ theorem tampered_frame_of (mac : Bytes → Bytes → Bytes) (hmac32 : C13.Mac32 
   have hp'len : p'.length = p.length := (cipher_length tk nonce ct' htk hnonce).trans hlen
   -- the tampered stream is the well-formed stream of pre ++ [(nonce, p')] ++ post
   have hframe := tampered_frame_is_frame tk nonce ct' p.length htk hnonce hlen
-  have hst := C14.stream tk (pre ++ [(nonce, p')] ++ post) chunks htk
+  have hst := frames_stream tk (pre ++ [(nonce, p')] ++ post) chunks htk
     (by
       intro f hf
       simp only [List.mem_append, List.mem_singleton] at hf
